@@ -173,12 +173,25 @@ Proof.
 Qed.
 
 (* ================================================================ sorted() of the current source *)
-(* what gotrans read off builtins.go: the comparison is `<` (`>` for reverse=True) on the keys, nothing follows the sort *)
+(* what gotrans read off builtins.go: the comparison is `<` (`>` for reverse=True) on the keys, nothing follows the sort,
+   and both branches call the STABLE sort (with sort.Slice the model - and the proof below - only cover 12 elements) *)
 Lemma sorted_source_shape :
   (forall rv, sort_op_of (sorted_op_key rv) = Some (if rv then SGt else SLt))
   /\ (forall rv, sort_op_of (sorted_op_nokey rv) = Some (if rv then SGt else SLt))
-  /\ sorted_post_reverse = false /\ sorted_clones = true.
+  /\ sorted_post_reverse = false /\ sorted_clones = true
+  /\ sort_fn_of sorted_fn_key = Some FStable /\ sort_fn_of sorted_fn_nokey = Some FStable.
 Proof. repeat split; intros []; reflexivity. Qed.
+
+(* hence the model covers lists of EVERY length *)
+Lemma asp_sorted_perm_all_lengths : forall keys rv,
+  same_kind keys = true -> exists r, asp_sorted_perm keys rv = Some (map (@snd _ _) r) /\ asp_sorted rv (tag keys) = Some r.
+Proof.
+  intros keys rv K. unfold asp_sorted_perm.
+  rewrite (proj1 (proj2 (proj2 (proj2 (proj2 sorted_source_shape))))). cbn [modelled_length negb orb]. rewrite K. cbn [negb].
+  destruct (asp_sorted rv (tag keys)) as [r|] eqn:E.
+  - exists r. split; reflexivity.
+  - unfold asp_sorted in E. rewrite (proj1 sorted_source_shape rv) in E. discriminate.
+Qed.
 
 Lemma asp_sorted_eq : forall rv l,
   asp_sorted rv l = Some (go_isort (fun a b => key_less (if rv then SGt else SLt) (fst a) (fst b)) l).
